@@ -25,7 +25,7 @@ def run(ctx):
     if not ok_h:
         return
     quick = ctx.tier == "quick"
-    results = engine.run_programs(ctx, 40 if quick else 400, 3 if quick else 8,
+    results = engine.run_programs(ctx, 40 if quick else 200, 3 if quick else 6,
                                   ["canon", "perm", "closes", "dups"], tag="c01")
     ctx.cov["programs"] = engine.status_counts(results)
     engine.describe_program_failures(ctx, results)
